@@ -35,11 +35,6 @@ func main() {
 	}
 	var pkgs []pkgInfo
 	for k := 0; k < *npkg; k++ {
-		pkg := fmt.Sprintf("p%02d", k)
-		dir := filepath.Join(*out, "corpus", pkg)
-		if err := os.MkdirAll(dir, 0o755); err != nil {
-			panic(err)
-		}
 		opts := progen.GenOpts{MaxTasks: *maxTasks, Emitters: k%3 != 0, AutoInstr: k%6 == 5, Modifier: *kind == "modifier"}
 		if opts.Modifier {
 			// modifier mode is specified for Params, Results, Concurrency and plain Tasks only
@@ -47,6 +42,17 @@ func main() {
 			if *kind == "modifier" && *modEmit {
 				opts.Emitters = k%3 != 0 // ... and is also run with emitters and InstrumentFlow (C18)
 			}
+		}
+		// packages generated with -auto-instrument are named q.., the others p..: the tool is run
+		// once per group, on the pattern corpus/p... (or q...), so that one invocation processes
+		// several packages
+		pkg := fmt.Sprintf("p%02d", k)
+		if opts.AutoInstr {
+			pkg = fmt.Sprintf("q%02d", k)
+		}
+		dir := filepath.Join(*out, "corpus", pkg)
+		if err := os.MkdirAll(dir, 0o755); err != nil {
+			panic(err)
 		}
 		pkgs = append(pkgs, pkgInfo{Name: pkg, AutoInstr: opts.AutoInstr})
 		regs = nil
@@ -63,6 +69,11 @@ func main() {
 			name := "prog"
 			for _, i := range pendIDs {
 				name += fmt.Sprintf("_%d", i)
+			}
+			if pendIDs[0]%3 == 0 {
+				// a long file name (what is written next to the code - line directives, comments -
+				// grows with it)
+				name += "_" + strings.Repeat("0", 14+pendIDs[0]%17)
 			}
 			if err := os.WriteFile(filepath.Join(dir, name+"_x.go"), []byte(progen.FileSource(pkg, pendBodies, pendExt)), 0o644); err != nil {
 				panic(err)
@@ -99,8 +110,10 @@ func main() {
 		for n := 0; n < *per; n++ {
 			p := &progen.Prog{ID: id, Pkg: pkg, Name: fmt.Sprintf("Prog%d", id), AutoInstr: opts.AutoInstr, ModifierOK: opts.Modifier, PlainNames: *plain}
 			id++
-			if *kind == "modifier" || rng.Intn(10) < 6 {
-				p.Flow = progen.GenFlow(rng, opts)
+			if *kind == "modifier" || rng.Intn(10) < 6 || n == 0 {
+				fo := opts
+				fo.PredHeavy = n == 0 && !opts.Modifier
+				p.Flow = progen.GenFlow(rng, fo)
 				emit(p)
 				if rng.Intn(4) == 0 && n+1 < *per {
 					q := &progen.Prog{ID: id, Pkg: pkg, Name: fmt.Sprintf("Prog%d", id), AutoInstr: opts.AutoInstr, ModifierOK: opts.Modifier, PlainNames: *plain}
